@@ -51,7 +51,9 @@ type Case struct {
 	Update          bool     `json:"update_run"` // generate all but the last method first, then run the update over the existing files
 }
 
-var segs = []string{"a-b", "a_b", "a.b", "A_B", "ab", "1a", "a1", ":id", ":a_b", "*rest", "v1", "v1", "users", "a-b", "a_b"}
+// "zq", "zq0", "zq1", "users0": a literal segment that looks like the name hz derives for the
+// second / third occurrence of another segment ("zq" again under another parent becomes _zq0)
+var segs = []string{"a-b", "a_b", "a.b", "A_B", "ab", "1a", "a1", ":id", ":a_b", "*rest", "v1", "v1", "users", "a-b", "a_b", "zq", "zq", "zq0", "zq1", "users0", "zq"}
 var verbs = []string{"GET", "GET", "POST", "PUT", "DELETE", "PATCH", "HEAD", "OPTIONS", "Any"}
 
 func genCase(t *rapid.T) *Case {
